@@ -674,6 +674,16 @@ def run(ctx):
             if o.kind == 'value' or not isinstance(o.exc, TypeError):
                 ctx.violation('type-variable-substitution', 'parametrised', i, {'subscript': label, 'outcome': o.brief()}, mech='wrong-arity-subscript-accepted')
                 return
+        # a subclass adds a field: its instances are written with it, also after an instance of the base was written through the method
+        inst.into_data()
+        Child = type(f"PChild{next(_serial)}", (Box[arg],), {'__annotations__': {'extra': str}, 'extra': 'e', '__module__': __name__})
+        ch = Child(good, 1, 'E')
+        m = observe(ch.into_data)
+        ctx.count('subclass_method_checks')
+        if m.kind != 'value' or m.val != {'x': env.into_data(good, arg), 'n': 1, 'extra': 'E'}:
+            ctx.violation('effective-fields-and-order', 'parametrised', i, {'base_written_first': short(inst), 'subclass_instance': short(ch), 'x.into_data()': m.brief()},
+                          mech='subclass-written-with-the-base-class-fields')
+            return
         full = observe(lambda: Two[int, str](1, 's'))
         if full.kind != 'value':
             ctx.violation('type-variable-substitution', 'parametrised', i, {'subscript': 'Two[int, str](1, "s")', 'outcome': full.brief()}, mech='right-arity-subscript-refused')
